@@ -127,7 +127,7 @@ def step (s : St) (op : List String) (impl : String) : LineOut St :=
           let pre := s.lAll.take k
           let expect := pre.drop (k - s.cap) ++ s.lAll.drop k
           if got != expect then
-            some (if pre.contains "" then "empty-line-backlog" else "monitor-backlog",
+            some ("monitor-backlog",
                   s!"handler {i} received {got.length} lines, expected the last {min k s.cap} buffered lines then {s.lAll.length - k} later ones")
           else none
         | _, _ => none
